@@ -182,6 +182,16 @@ func (g *frameGen) valid(router bool) genFrame {
 		for i := nf; i > 0; i-- {
 			fam = append(fam, byte(2+i), byte(i))
 		}
+		if e.Choose("wl.extradib", 2) == 1 {
+			// further description blocks of the kinds the library keeps unparsed (IP configuration,
+			// current configuration, KNX addresses, manufacturer data), of every length from 2 up
+			for j := 1 + e.Choose("wl.nextradib", 3); j > 0; j-- {
+				ty := []byte{3, 4, 5, 0xfe}[e.Choose("wl.extradibty", 4)]
+				n := e.Choose("wl.extradiblen", 24)
+				fam = append(fam, byte(2+n), ty)
+				fam = append(fam, g.bytes("wl.extradibb", n)...)
+			}
+		}
 		if k == "searchres" {
 			raw = mkFrame(svcSearchRes, append(append(mkHPAI(1, [4]byte{10, 0, 0, 9}, 3671), dev...), fam...))
 		} else {
@@ -219,7 +229,7 @@ func (g *frameGen) hostile(router bool) genFrame {
 	edge := func() byte {
 		return []byte{0, 1, 2, 3, 4, 7, 8, 9, 0x35, 0x36, 0x37, 0xfe, 0xff}[e.Choose("wl.edge", 13)]
 	}
-	switch m := e.Choose("wl.mut", 10); m {
+	switch m := e.Choose("wl.mut", 11); m {
 	case 0: // truncate (header length field adjusted to the truncated size: the body is short)
 		if len(b) > 6 {
 			b = b[:6+e.Choose("wl.trunc", len(b)-6)]
@@ -296,15 +306,41 @@ func (g *frameGen) hostile(router bool) genFrame {
 		}
 		code := []byte{0x11, 0x2e, 0x29, 0x29}[e.Choose("wl.illcode", 4)]
 		c := mkLData(code, 0xbc, 0xe0, 0x1101, uint16(e.Choose("wl.illdst", 65536)), 2, app, info)
-		cut := 1 + e.Choose("wl.illcut", len(c)-1) // 1 .. len(c)-1 octets missing at the end
-		c = c[:len(c)-cut]
+		why := ""
+		if e.Choose("wl.illlong", 3) == 0 {
+			// ... or goes on for 256 or 512 octets more than they say (the same number modulo 256)
+			extra := 256 * (1 + e.Choose("wl.illextra", 2))
+			l := []int{0, 0, 1, 5, 14}[e.Choose("wl.illannounced", 5)]
+			c = c[:len(c)-len(app)-2]    // up to, not including, the length octet
+			c = append(c, byte(l), 0x00) // length octet, TPCI of a data unit
+			tail := g.bytes("wl.illtail", l+extra)
+			tail[0] &= 0x3f
+			c = append(c, tail...)
+			why = fmt.Sprintf("L_Data frame with %d octets more than its length octet announces", extra)
+		} else {
+			cut := 1 + e.Choose("wl.illcut", len(c)-1) // 1 .. len(c)-1 octets missing at the end
+			c = c[:len(c)-cut]
+			why = fmt.Sprintf("L_Data frame cut short by %d octets", cut)
+		}
 		if router || e.Choose("wl.illwrap", 2) == 0 {
 			b = mkFrame(svcRoutingInd, c)
 		} else {
 			b = mkFrame(svcTunnelReq, append([]byte{4, uint8(e.Choose("wl.ch", 256)), uint8(e.Choose("wl.seq", 256)), 0}, c...))
 		}
-		g.illFormed[string(b)] = fmt.Sprintf("L_Data frame cut short by %d octets", cut)
+		g.illFormed[string(b)] = why
 		f.desc = "ldata-cut-short"
+	case 10: // a service-families block whose length octet is at the top of its range, with plenty behind it
+		name := make([]byte, 30)
+		copy(name, "big")
+		dev := append([]byte{54, 1, 0x02, 0, 0x11, 0x01, 0, 0, 1, 2, 3, 4, 5, 6, 224, 0, 23, 12, 1, 2, 3, 4, 5, 6}, name...)
+		fam := []byte{[]byte{0xfe, 0xff, 0xfd, 0xfc}[e.Choose("wl.bigfamlen", 4)], 2}
+		fam = append(fam, g.bytes("wl.bigfamb", 250+e.Choose("wl.bigfamn", 200))...)
+		if e.Choose("wl.bigfamsvc", 2) == 0 {
+			b = mkFrame(svcSearchRes, append(append(mkHPAI(1, [4]byte{10, 0, 0, 9}, 3671), dev...), fam...))
+		} else {
+			b = mkFrame(svcDescrRes, append(dev, fam...))
+		}
+		f.desc = "families-block-at-the-limit"
 	case 8: // short connect response and friends: 6-byte header + 0..3 bytes
 		svc := []uint16{svcConnRes, svcConnStateRes, svcTunnelRes, svcTunnelReq, svcDescrRes, svcSearchRes, svcRoutingInd, svcRoutingBusy}[e.Choose("wl.ssvc", 8)]
 		b = mkFrame(svc, g.bytes("wl.sb", e.Choose("wl.slen", 4)))
@@ -324,24 +360,25 @@ func minInt(a, b int) int {
 // ---------------------------------------------------------------------------------------
 
 type sockRun struct {
-	e        *Env
-	sendWant map[string]int // encodings of the values handed to Send -> how often
-	wf       map[string]string
-	ill      map[string]string
-	c        sockCfg
-	sock     knxnet.Socket
-	got      []knxnet.Service
-	gotAt    []Stamp
-	inEnd    *Stamp
-	sent     []genFrame // what the peer transmitted, in order
-	sendErrs int
-	sendOK   int
-	closeAt  Stamp  // taken right before the harness calls Close
-	peerGot  []byte // tcp: every octet the peer has read from the client
-	peerEnd  string // tcp: how the peer's reading ended ("": it has not)
-	closed   bool
-	endAt    Stamp // the instant the end (Close, read error) was triggered
-	pending  bool  // the consumer was not reading when the end came
+	e           *Env
+	sendWant    map[string]int // encodings of the values handed to Send -> how often
+	wf          map[string]string
+	ill         map[string]string
+	c           sockCfg
+	sock        knxnet.Socket
+	got         []knxnet.Service
+	gotAt       []Stamp
+	inEnd       *Stamp
+	sent        []genFrame // what the peer transmitted, in order
+	sendErrs    int
+	sendOK      int
+	closeAt     Stamp  // taken right before the harness calls Close
+	stalledPeer bool   // tcp: the peer stops reading for seconds at a time
+	peerGot     []byte // tcp: every octet the peer has read from the client
+	peerEnd     string // tcp: how the peer's reading ended ("": it has not)
+	closed      bool
+	endAt       Stamp // the instant the end (Close, read error) was triggered
+	pending     bool  // the consumer was not reading when the end came
 }
 
 func runSocket(e *Env, hostile bool) {
@@ -378,6 +415,15 @@ func runSocket(e *Env, hostile bool) {
 			e.F.SetLink(a, b, lnk)
 		}
 	}
+	if !hostile && c.Kind != "tcp" && c.Senders > 0 && e.Choose("cfg.werr16", 4) == 0 {
+		// some of the client's own writes fail (no buffer space): that Send reports it, and nobody
+		// else is the worse for it
+		up := lnk
+		up.WriteErrPermille = []int{50, 150, 400}[e.Choose("cfg.werr16p", 3)]
+		for _, b := range []string{gwIP, peerIP, groupIP} {
+			e.F.SetLink(clientIP, b, up)
+		}
+	}
 	r := &sockRun{e: e, c: c, sendWant: map[string]int{}}
 	gen := &frameGen{e: e, wellFormed: map[string]string{}, illFormed: map[string]string{}}
 	r.wf = gen.wellFormed
@@ -409,6 +455,7 @@ func runSocket(e *Env, hostile bool) {
 			// Some peers stop reading for a while: the client's writes then fill the window and
 			// block (a write may go out in pieces, but a Send never leaves half a frame behind).
 			stallPeer := !hostile && e.Choose("cfg.tcpstall", 4) == 0
+			r.stalledPeer = stallPeer
 			if stallPeer {
 				tcpPeer.Peer().SndBuf = []int{64, 600, 4096}[e.Choose("cfg.tcpwindow", 3)]
 				e.Fault("tcp-peer-stops-reading")
@@ -592,7 +639,9 @@ func runSocket(e *Env, hostile bool) {
 			r.flushTCP(tcpPeer, stream)
 		}
 	})
-	e.WaitDone("workload", 30*time.Second, func() bool { return peerDone && sendersLeft == 0 })
+	if !e.WaitDone("workload", 30*time.Second, func() bool { return peerDone && sendersLeft == 0 }) && sendersLeft > 0 && !r.stalledPeer {
+		e.Violate("C16", "send-never-returned", "%d of %d sending goroutines are still inside Send 30 s after they started, with a peer that reads everything at once", sendersLeft, c.Senders)
+	}
 	workloadOver = true
 	e.WaitDone("consumer-back", 5*time.Second, func() bool { return !away })
 	s.SleepFor(50 * time.Millisecond) // everything in flight arrives and is consumed
